@@ -11,13 +11,14 @@ which is how garbler/evaluator/computer read an input.  `StrFacts` is what the
 code reads off an input string (`num` = outcome of `big.Int.SetString(s,0)`,
 given).  `GoVal` is a dynamic Go value handed to `Set`/`Sizes`.
 
-The unchanged repository violates the statement in five places; each has a
-`…_witness` theorem (negation on a concrete input, replayed on the Go code by
-the harness) next to the `…_partial` theorem that holds:
-  (a) `mpc.Result` rewrites its argument for negative `TInt` values;
-  (b) `Sizes`/`bitLen` returns 1 for the values 2 and 3 (`InputSizes`: 2), and
-      for negative values `Sizes` = 64 while `InputSizes` = bit length of |v|,
-      which is too short for the two's complement form;
+Status against /repo HEAD.  Two defects found by this check are repaired by
+commits 66e4e03 (`mpc.Result` no longer rewrites its argument) and 485d3fb
+(`bitLen` loop bound `i > 0`); the model follows the repaired code, the
+purity and `bitLen` theorems are now full-strength, and what was wrong is
+stated about explicitly named OLD definitions (`resultIntOld`, `bitLenOld`).
+Still violated (a `…_witness` negation next to the `…_partial` theorem):
+  (b') for negative values `Sizes` = 64 while `InputSizes` = bit length of
+      |v|, which is too short for the two's complement form;
   (c) `setInt` writes 64 bits whatever the width: no sign extension above bit
       64, and the surplus bits of a negative value stay in the wires of a
       following array that is given no elements;
@@ -256,41 +257,50 @@ theorem C13_set_member_disturbed_witness :
 
 /-! ## Inferred sizes -/
 
-/-- `bitLen` (the loop stops at `i > 1`) is the bit length for every 64-bit
-value from 4 upwards, and 1 for 0..3. -/
+/-- `bitLen` is the bit length for every 64-bit value ≥ 1, and 1 for 0
+(full statement; loop bound `i > 0` since commit 485d3fb). -/
 theorem C13_bitLen_spec (v : Nat) (hv : v < 2 ^ 64) :
-    (4 ≤ v → bitLen v = natBitLen v) ∧ (v < 4 → bitLen v = 1) :=
-  ⟨bitLen_spec v hv, bitLen_small v⟩
+    (1 ≤ v → bitLen v = natBitLen v) ∧ bitLen 0 = 1 :=
+  ⟨bitLen_spec v hv, bitLen_zero⟩
 
-/- Full statement (FALSE at 2, 3 and at negative values):
-   `Sizes [v] = InputSizes [decimal v]` = the width that is written. -/
+example : (2 : Nat) < 2 ^ 64 ∧ 1 ≤ 2 ∧ bitLen 2 = 2 ∧ bitLen 3 = 2 := by decide
 
-/-- `Sizes` of a Go integer and `InputSizes` of a non-literal, non-"0x"
-spelling of the same number agree and equal its bit length — for every
-64-bit value `v ≥ 4`; and for 0 and 1 (spelled "0"/"1") both give 1. -/
+/- Full statement (still FALSE at negative values, see
+   `C13_sizes_negative_witness`): `Sizes [v] = InputSizes [decimal v]` = the
+   width that is written. -/
+
+/-- Every non-negative 64-bit value: `Sizes` of the Go integer and
+`InputSizes` of a non-literal, non-"0x" spelling of the same number agree and
+equal its bit length (`n ≥ 1`; the decimal text of every `n ≥ 2` is such a
+spelling), and for 0 and 1 spelled "0"/"1" (bool literals) both give 1. -/
 theorem C13_sizes_agree_partial (n : Nat) (hn : n < 2 ^ 64) (s : Bool) (w : Nat) (st : StrFacts)
     (hu : st.underscore = false) :
-    (4 ≤ n → st.boolLit = none → st.hex0x = false → st.reHex = none → st.num = some (n : Int) →
+    (1 ≤ n → st.boolLit = none → st.hex0x = false → st.reHex = none → st.num = some (n : Int) →
       sizeOf1 (.num s w n) = .ok (natBitLen n) ∧ inputSize1 st = .ok (natBitLen n)) ∧
     (n < 2 → st.boolLit.isSome → sizeOf1 (.num s w n) = .ok 1 ∧ inputSize1 st = .ok 1) := by
   constructor
-  · intro h4 hb hx hre hnum
+  · intro h1 hb hx hre hnum
     constructor
-    · simp [sizeOf1, ival_ofNat n hn, bitLen_spec n hn h4]
+    · simp [sizeOf1, ival_ofNat n hn, bitLen_spec n hn h1]
     · simp [inputSize1, hu, hb, hx, hre, hnum, bitLength]
   · intro h2 hb
+    have : bitLen n = 1 := by
+      have : n = 0 ∨ n = 1 := by omega
+      rcases this with h | h <;> subst h <;> decide
     constructor
-    · simp [sizeOf1, ival_ofNat n hn, bitLen_small n (by omega)]
+    · simp [sizeOf1, ival_ofNat n hn, this]
     · simp [inputSize1, hu, hb]
 
-example : ∃ (n : Nat) (st : StrFacts), n < 2 ^ 64 ∧ 4 ≤ n ∧ st.underscore = false ∧ st.boolLit = none ∧ st.hex0x = false ∧
+example : ∃ (n : Nat) (st : StrFacts), n < 2 ^ 64 ∧ 1 ≤ n ∧ st.underscore = false ∧ st.boolLit = none ∧ st.hex0x = false ∧
     st.reHex = none ∧ st.num = some (n : Int) :=
-  ⟨255, ⟨none, false, false, 3, none, some 255⟩, by decide⟩
+  ⟨3, ⟨none, false, false, 1, none, some 3⟩, by decide⟩
 
-/-- Witness of defect (b): `uint8(2)` / "2" and `uint8(3)` / "3". -/
-theorem C13_sizes_disagree_witness :
-    sizeOf1 (.num false 8 2) = .ok 1 ∧ inputSize1 ⟨none, false, false, 1, none, some 2⟩ = .ok 2 ∧
-    sizeOf1 (.num false 8 3) = .ok 1 ∧ inputSize1 ⟨none, false, false, 1, none, some 3⟩ = .ok 2 := by
+/-- What was wrong before commit 485d3fb, about the OLD definition: the loop
+`i > 1` gave 1 for the values 2 and 3 (the text "2"/"3" is sized 2). -/
+theorem C13_old_bitLen_2_3_witness :
+    bitLenOld 2 = 1 ∧ bitLenOld 3 = 1 ∧ bitLen 2 = 2 ∧ bitLen 3 = 2 ∧
+    inputSize1 ⟨none, false, false, 1, none, some 2⟩ = .ok 2 ∧
+    inputSize1 ⟨none, false, false, 1, none, some 3⟩ = .ok 2 := by
   decide +kernel
 
 /-- Witness of defect (b), negative values: `int8(-3)` gives 64, the text
@@ -313,12 +323,12 @@ theorem C13_result_inverts_uint (n a : Nat) (v : Nat) (hv : v < 2 ^ n) :
 example : (200 : Nat) < 2 ^ 8 := by decide
 
 /-- `Result` inverts the two's complement encoding `lowBits v n` of every
-signed value of every width `n ≥ 1` (the returned value is `v`; the cell
-afterwards holds `v`, not the encoding — see `C13_result_not_pure_witness`). -/
+signed value of every width `n ≥ 1`: the returned value is `v` and the cell
+still holds the encoding. -/
 theorem C13_result_inverts_int (n a : Nat) (hn : 1 ≤ n) (v : Int)
     (hlo : -((2 ^ (n - 1) : Nat) : Int) ≤ v) (hhi : v < ((2 ^ (n - 1) : Nat) : Int)) :
     result (.base .int n a) ((lowBits v n : Nat) : Int) =
-      .ok (if n ≤ 64 then .i (widthClass n) v else .big v, v) :=
+      .ok (if n ≤ 64 then .i (widthClass n) v else .big v, ((lowBits v n : Nat) : Int)) :=
   result_int n a hn v hlo hhi
 
 example : -((2 ^ (8 - 1) : Nat) : Int) ≤ -16 ∧ (-16 : Int) < ((2 ^ (8 - 1) : Nat) : Int) := by decide
@@ -343,37 +353,27 @@ theorem C13_result_inverts_array (tag : Tag) (htag : tag = .array ∨ tag = .sli
   intro i _
   exact ⟨_, result_uint w a _ (lowBits_lt _ _)⟩
 
-/- Full statement (FALSE): for every output type and cell content, `Result`
-   leaves the cell unchanged and a second call returns the same value. -/
-
-/-- Purity and repeatability: whenever `Result` returns (any type, any cell
-content `z`) and the type is not `TInt` with bit `Bits-1` of `z` set, the cell
-is unchanged, hence a second call returns the same value. -/
-theorem C13_result_pure_partial (t : Info) (z : Int) (rv : RVal) (c : Int)
-    (h : result t z = .ok (rv, c)) (hp : t.tag ≠ .int ∨ ibit z (t.bits - 1) = false) :
+/-- Purity and repeatability, full statement: whenever `Result` returns (every
+type, every cell content `z`, negative `TInt` values included) the cell is
+unchanged, hence a second call on the same `*big.Int` returns the same value. -/
+theorem C13_result_pure (t : Info) (z : Int) (rv : RVal) (c : Int)
+    (h : result t z = .ok (rv, c)) :
     c = z ∧ result t c = .ok (rv, c) := by
-  have hc := result_cell t z rv c h hp
+  have hc := result_cell t z rv c h
   subst hc
   exact ⟨rfl, h⟩
 
-example : result (.base .int 8 0) 0x70 = .ok (.i 8 112, 112) ∧ ibit 0x70 (8 - 1) = false :=
-  ⟨by rfl, by rfl⟩
+example : result (.base .int 8 0) 0xF0 = .ok (.i 8 (-16), 0xF0) ∧
+    result (.base .int 5 0) 16 = .ok (.i 8 (-16), 16) ∧
+    result (.base .int 100 0) (2 ^ 99) = .ok (.big (-(2 ^ 99)), 2 ^ 99) :=
+  ⟨by rfl, by rfl, by rfl⟩
 
-/-- Witness of defect (a): `int8`, cell 0xF0.  The first call returns −16 and
-leaves −16 in the caller's `*big.Int`; the second call leaves −272. -/
-theorem C13_result_not_pure_witness :
-    result (.base .int 8 0) 0xF0 = .ok (.i 8 (-16), -16) ∧
-    result (.base .int 8 0) (-16) = .ok (.i 8 (-16), -272) :=
-  ⟨by rfl, by rfl⟩
-
-/-- Witness of defect (a), repeatability: `int5`, cell 16: first call −16,
-second call on the same `*big.Int` −48; `int100`: the returned `*big.Int` is
-the argument itself and changes value on the second call. -/
-theorem C13_result_not_repeatable_witness :
-    result (.base .int 5 0) 16 = .ok (.i 8 (-16), -16) ∧
-    result (.base .int 5 0) (-16) = .ok (.i 8 (-48), -48) ∧
-    result (.base .int 100 0) (2 ^ 99) = .ok (.big (-(2 ^ 99)), -(2 ^ 99)) ∧
-    result (.base .int 100 0) (-(2 ^ 99)) = .ok (.big (-(2 ^ 99) - 2 ^ 100), -(2 ^ 99) - 2 ^ 100) :=
+/-- What was wrong before commit 66e4e03, about the OLD `TInt` branch: `int8`,
+cell 0xF0: the call returned −16 and left −16 in the caller's `*big.Int`, the
+next call left −272; `int5`, cell 16: −16 then −48 (a different value). -/
+theorem C13_old_result_not_pure_witness :
+    resultIntOld 8 0xF0 = (.i 8 (-16), -16) ∧ resultIntOld 8 (-16) = (.i 8 (-16), -272) ∧
+    resultIntOld 5 16 = (.i 8 (-16), -16) ∧ resultIntOld 5 (-16) = (.i 8 (-48), -48) :=
   ⟨by rfl, by rfl, by rfl, by rfl⟩
 
 /-- Defect (d): for every array/slice whose element type is an array, a slice
